@@ -1,4 +1,5 @@
-// Native replay for C18 (finding: suspending an enabled variable does not wake the staged variables of its constraints).
+// Native replay for C18 (defect fixed in /repo 1117e72944: suspending an enabled variable did not wake the staged
+// variables of its constraints; kept as regression replay for the clause suspend_leaves_no_staged_variable_with_room).
 // Runs the REAL lmm code of the working tree (libsimgrid of the build + headers of the tree): one constraint with
 // concurrency limit 1, variables a (enabled) and b (staged behind a); suspend a with update_variable_penalty(a, 0).
 // Property C18: "after any change, a staged activity uses at least one resource that has no free slot".
